@@ -21,6 +21,7 @@ func (e *env) themeChecks() {
 	e.digestSizeSweep()
 	e.specialValueChecks()
 	e.sharedContextChecks()
+	e.handoutChecks()
 }
 
 // ---------------------------------------------------------------------------
